@@ -3,6 +3,8 @@ component they are named after.
  W1  struct literal `A { f: x.g }` where g is also a field of A            => g == f
  W2  struct literal `A { f: param }` where the parameter's name is a field of A => name == f
  W3  `self.f = param` in a method named `f` / `set_f` where f is a field of Self => the field written is f
+ W6  call of a crate-local function whose parameter j is named (modulo synonyms) like a field g' of an options
+     struct, with argument j read from ANOTHER field g of that same struct          => g == g'
  W4  call of a crate-local function with argument i taken from a parameter / field whose name (modulo the synonym
      table) is the name of the callee's parameter j                            => j == i
 Only instances that involve the field names given by the calling property are counted."""
@@ -19,6 +21,7 @@ SYN = {
     'min_confidence': {'min_confidence'},
     'method': {'method'},
     'shards': {'shards', 'distance_shards'},
+    'min_votes': {'min_votes', 'visual_min_votes', 'min_winner_feature_votes'},
 }
 
 
@@ -143,6 +146,29 @@ def run(ctx, R, names):
                 continue
             cnames = {canon(v): k for k, v in cp.items()}
             eb = eb or ExprBuilder(b)
+            # W6: parameter named like a sibling field of the struct the argument is read from
+            for k, pname in cp.items():
+                cpn = canon(pname)
+                if cpn not in names or k - 1 >= len(c.args):
+                    continue
+                e = eb.arg(c, k - 1).strip()
+                if e.kind != 'place' or not e.fields:
+                    continue
+                g = e.fields[-1]
+                if g.isdigit() or g.startswith('as '):
+                    continue
+                owner = None
+                for adt_path, a in F.adts.items():
+                    fs = [f['name'] for v in a['variants'] for f in v['fields']]
+                    if g in fs and cpn in {canon(x) for x in fs}:
+                        owner = adt_path
+                if owner is None:
+                    continue
+                n += 1
+                ctx.read(b)
+                ctx.check(canon(g) == cpn, R, b, 'callarg:%s(%s)' % (c.callee.rsplit('::', 2)[-2] + '::' + c.name, pname),
+                          '', 'parameter `%s` of %s is fed from field `%s` although %s has a field for `%s`: two '
+                          'configuration values are crossed' % (pname, c.callee, g, owner.rsplit('::', 1)[-1], cpn), c.ln)
             for idx in range(len(c.args)):
                 e = eb.arg(c, idx)
                 g = last_name(e, pn)
